@@ -349,21 +349,51 @@ func typeSwitch(repo, out string) error {
 
 // ---------------------------------------------------------------- callback schedule
 
+// isInvoke: a call whose second argument is one of the exported CB_AT_* time constants — the
+// callback-invoking helper, whatever it is called.
+func isInvoke(c *ast.CallExpr) bool {
+	if len(c.Args) < 3 {
+		return false
+	}
+	id, ok := c.Args[1].(*ast.Ident)
+	return ok && strings.HasPrefix(id.Name, "CB_AT_")
+}
+
+func containsInvoke(fn *ast.FuncDecl) bool {
+	found := false
+	ast.Inspect(fn.Body, func(n ast.Node) bool {
+		if c, ok := n.(*ast.CallExpr); ok && isInvoke(c) {
+			found = true
+		}
+		return !found
+	})
+	return found
+}
+
+// fieldOf: the callback-set expression reduced to its field name (receiver variable names are free to change)
+func fieldOf(e ast.Expr) string {
+	if s, ok := e.(*ast.SelectorExpr); ok {
+		return s.Sel.Name
+	}
+	return src(e)
+}
+
 func schedule(repo, out string) error {
 	files, err := parseDir(repo)
 	if err != nil {
 		return err
 	}
 	type call struct {
-		fn    string
-		depth int
-		guard string
-		args  [4]string
+		fn     string
+		depth  int
+		guard  string
+		set    string
+		time   string
+		target string
+		addrOf bool
 	}
 	var calls []call
-	// functions in a fixed order so that the list is stable under file reordering
-	wanted := []string{"InvokeRenderCallbacks", "invokeRenderCallbacks", "Add", "AddRow", "AddHeaders"}
-	fns := map[string]*ast.FuncDecl{}
+	methods := map[string]*ast.FuncDecl{} // by name; Add only for Row
 	for _, f := range files {
 		for _, d := range f.Decls {
 			if fn, ok := d.(*ast.FuncDecl); ok && fn.Body != nil && fn.Recv != nil {
@@ -371,12 +401,28 @@ func schedule(repo, out string) error {
 				if key == "Add" && !strings.Contains(src(fn.Recv.List[0].Type), "Row") {
 					continue
 				}
-				fns[key] = fn
+				methods[key] = fn
 			}
 		}
 	}
-	for _, name := range wanted {
-		fn := fns[name]
+	// the per-row traversal: the method InvokeRenderCallbacks calls that itself invokes callbacks
+	rowTraversal := ""
+	if top := methods["InvokeRenderCallbacks"]; top != nil {
+		ast.Inspect(top.Body, func(n ast.Node) bool {
+			if c, ok := n.(*ast.CallExpr); ok {
+				if s, ok := c.Fun.(*ast.SelectorExpr); ok {
+					if m := methods[s.Sel.Name]; m != nil && s.Sel.Name != "InvokeRenderCallbacks" && containsInvoke(m) {
+						rowTraversal = s.Sel.Name
+					}
+				}
+			}
+			return true
+		})
+	}
+	wanted := [][2]string{{"InvokeRenderCallbacks", "InvokeRenderCallbacks"}, {rowTraversal, "rowTraversal"}, {"Add", "Add"}, {"AddRow", "AddRow"}, {"AddHeaders", "AddHeaders"}}
+	for _, wn := range wanted {
+		fn := methods[wn[0]]
+		label := wn[1]
 		if fn == nil {
 			continue
 		}
@@ -392,9 +438,15 @@ func schedule(repo, out string) error {
 			case *ast.RangeStmt:
 				walk(st.Body, depth+1, guard)
 			case *ast.IfStmt:
-				g := src(st.Cond)
-				if st.Init != nil {
-					g = src(st.Init) + "; " + g
+				g := "if"
+				c := src(st.Cond)
+				// the only two guards the documented schedule knows: "the column exists", "a header exists"
+				if strings.HasSuffix(c, "!= nil") {
+					if strings.Contains(c, "eader") {
+						g = "header"
+					} else {
+						g = "nonnil"
+					}
 				}
 				walk(st.Body, depth, g)
 				if st.Else != nil {
@@ -402,16 +454,12 @@ func schedule(repo, out string) error {
 				}
 			case *ast.ExprStmt:
 				if c, ok := st.X.(*ast.CallExpr); ok {
-					if id, ok := c.Fun.(*ast.Ident); ok && id.Name == "invokePropertyCallbacks" && len(c.Args) == 4 {
-						var a [4]string
-						for i := range a {
-							a[i] = src(c.Args[i])
-						}
-						calls = append(calls, call{name, depth, guard, a})
+					if isInvoke(c) {
+						_, addr := c.Args[2].(*ast.UnaryExpr)
+						calls = append(calls, call{label, depth, guard, fieldOf(c.Args[0]), src(c.Args[1]), src(c.Args[2]), addr})
 					}
-					// method call into the per-row traversal keeps its place in the order
-					if s, ok := c.Fun.(*ast.SelectorExpr); ok && s.Sel.Name == "invokeRenderCallbacks" {
-						calls = append(calls, call{name, depth, guard, [4]string{"->row", src(s.X), "", ""}})
+					if s, ok := c.Fun.(*ast.SelectorExpr); ok && rowTraversal != "" && s.Sel.Name == rowTraversal {
+						calls = append(calls, call{label, depth, guard, "->row", "", "", false})
 					}
 				}
 			}
@@ -420,15 +468,15 @@ func schedule(repo, out string) error {
 	}
 	var b strings.Builder
 	b.WriteString("-- GENERATED by extract/ from /repo on every check; do not edit.\nnamespace Tab.Generated\n")
-	b.WriteString("structure SchedCall where\n  fn : String\n  depth : Nat\n  guard : String\n  set : String\n  time : String\n  target : String\n  taker : String\n  deriving DecidableEq, Repr\n\n")
-	b.WriteString("/-- every invokePropertyCallbacks call of the core package, in source order -/\n")
+	b.WriteString("structure SchedCall where\n  fn : String\n  depth : Nat\n  guard : String\n  set : String\n  time : String\n  target : String\n  targetAddrOf : Bool\n  deriving DecidableEq, Repr\n\n")
+	b.WriteString("/-- every callback invocation of the core package's render/add paths, in source order -/\n")
 	b.WriteString("def schedule : List SchedCall := [\n")
 	for i, c := range calls {
 		sep := ","
 		if i == len(calls)-1 {
 			sep = ""
 		}
-		fmt.Fprintf(&b, "  ⟨%s, %d, %s, %s, %s, %s, %s⟩%s\n", leanStr(c.fn), c.depth, leanStr(c.guard), leanStr(c.args[0]), leanStr(c.args[1]), leanStr(c.args[2]), leanStr(c.args[3]), sep)
+		fmt.Fprintf(&b, "  ⟨%s, %d, %s, %s, %s, %s, %v⟩%s\n", leanStr(c.fn), c.depth, leanStr(c.guard), leanStr(c.set), leanStr(c.time), leanStr(c.target), c.addrOf, sep)
 	}
 	b.WriteString("]\nend Tab.Generated\n")
 	return os.WriteFile(filepath.Join(out, "Schedule.lean"), []byte(b.String()), 0o644)
